@@ -10,6 +10,7 @@ type Tape struct {
 	Vals   []uint32
 	pos    int
 	replay bool
+	prefix int
 	rng    pcg
 	// Labels is filled only when Trace is on (debugging / decoded replay output).
 	Trace  bool
@@ -20,6 +21,15 @@ type Tape struct {
 func NewTape(seed uint64) *Tape {
 	t := &Tape{}
 	t.rng.seed(seed)
+	return t
+}
+
+// PrefixTape replays prefix and then continues generating from seed: the prefix carries the
+// coordinates of an enumerated case (sweeps), the rest is sampled.
+func PrefixTape(seed uint64, prefix []uint32) *Tape {
+	t := NewTape(seed)
+	t.Vals = append([]uint32(nil), prefix...)
+	t.prefix = len(prefix)
 	return t
 }
 
@@ -34,7 +44,7 @@ func (t *Tape) Choose(n int, label string) int {
 		return 0
 	}
 	var v uint32
-	if t.replay {
+	if t.replay || t.pos < t.prefix {
 		if t.pos < len(t.Vals) {
 			v = t.Vals[t.pos]
 			if int(v) >= n {
@@ -62,7 +72,7 @@ func (t *Tape) Chance(num, den int, label string) bool {
 		return false
 	}
 	var v uint32
-	if t.replay {
+	if t.replay || t.pos < t.prefix {
 		if t.pos < len(t.Vals) {
 			v = t.Vals[t.pos]
 			if v > 1 {
